@@ -994,10 +994,91 @@ type packetLit struct {
 }
 
 // packetOf resolves the message argument of a SendMsg call to a packet literal.
+// sendForwarderArg: call is a call of a module function that does nothing but
+// hand one of its parameters to the stream's SendMsg and return the result
+// (`func (s *sender) send(p *types.Packet) error { return s.conn.SendMsg(p) }`);
+// returns the argument that is sent. Such a call is read as the send itself:
+// the message is known at the call, not inside the forwarder.
+func (c *Ctx) sendForwarderArg(call ssa.CallInstruction) (ssa.Value, bool) {
+	if call == nil || call.Common().IsInvoke() {
+		return nil, false
+	}
+	callee := call.Common().StaticCallee()
+	if callee == nil || len(callee.Blocks) != 1 || !c.P.Transparent(callee) {
+		return nil, false
+	}
+	var send ssa.CallInstruction
+	n := 0
+	for _, in := range callee.Blocks[0].Instrs {
+		if ci, ok := in.(ssa.CallInstruction); ok {
+			n++
+			if c.P.IsCallTo(in, "(fsutil.Stream).SendMsg", "fsutil.(*syncStream).SendMsg") {
+				send = ci
+			}
+		}
+	}
+	if send == nil || n != 1 {
+		return nil, false
+	}
+	sa := send.Common().Args
+	if len(sa) == 0 {
+		return nil, false
+	}
+	raw := sa[len(sa)-1]
+	if mi, ok := raw.(*ssa.MakeInterface); ok {
+		raw = mi.X
+	}
+	q, ok := raw.(*ssa.Parameter)
+	if !ok || q.Parent() != callee {
+		return nil, false
+	}
+	ret, ok := callee.Blocks[0].Instrs[len(callee.Blocks[0].Instrs)-1].(*ssa.Return)
+	if !ok || len(ret.Results) != 1 || ret.Results[0] != send.Value() {
+		return nil, false
+	}
+	for i, p := range callee.Params {
+		if p == q && i < len(call.Common().Args) {
+			return call.Common().Args[i], true
+		}
+	}
+	return nil, false
+}
+
+// sendResultKeys: the registers whose value is "the result of this send": the
+// call itself and, for a call of a forwarder, the SendMsg inside it - the
+// explorer names the source of a returned value by that one. The inner
+// register is shared by all calls of the forwarder, so it is only given when
+// every call of it in fn is a send of the same kind.
+func (c *Ctx) sendResultKeys(fn *ssa.Function, call ssa.CallInstruction, sameKind func(ssa.CallInstruction) bool) []string {
+	out := []string{c.reg(call.Value())}
+	if _, fwd := c.sendForwarderArg(call); !fwd {
+		return out
+	}
+	callee := call.Common().StaticCallee()
+	all := true
+	eng.Instrs(fn, func(in ssa.Instruction) {
+		if ci, ok := in.(ssa.CallInstruction); ok && !ci.Common().IsInvoke() && ci.Common().StaticCallee() == callee && !sameKind(ci) {
+			all = false
+		}
+	})
+	if !all {
+		return out
+	}
+	for _, in := range callee.Blocks[0].Instrs {
+		if ci, ok := in.(ssa.CallInstruction); ok && ci.Value() != nil {
+			out = append(out, c.reg(ci.Value()))
+		}
+	}
+	return out
+}
+
 func (c *Ctx) packetOf(call ssa.CallInstruction) (*packetLit, bool) {
 	args := call.Common().Args
 	if len(args) == 0 {
 		return nil, false
+	}
+	if fa, ok := c.sendForwarderArg(call); ok {
+		args = []ssa.Value{fa}
 	}
 	v := eng.Strip(args[len(args)-1])
 	al, ok := v.(*ssa.Alloc)
@@ -1055,7 +1136,13 @@ func (c *Ctx) packetLikeConst(pkg, name string) (int64, bool) {
 // of a literal packet of the named type.
 func (c *Ctx) sendsPacket(in ssa.Instruction, typeName string) bool {
 	if !c.P.IsCallTo(in, "(fsutil.Stream).SendMsg", "fsutil.(*syncStream).SendMsg") {
-		return false
+		ci, isCall := in.(ssa.CallInstruction)
+		if !isCall {
+			return false
+		}
+		if _, fwd := c.sendForwarderArg(ci); !fwd {
+			return false
+		}
 	}
 	pl, ok := c.packetOf(in.(ssa.CallInstruction))
 	if !ok || !pl.HasType {
